@@ -31,7 +31,7 @@ def one(sid):
 
 def main():
     ids = sys.argv[1:] or sorted(x for x in os.listdir(os.path.join(V, 'seeded')) if os.path.isdir(os.path.join(V, 'seeded', x)))
-    with cf.ThreadPoolExecutor(max_workers=4) as ex:
+    with cf.ThreadPoolExecutor(max_workers=int(os.environ.get("SEED_MATRIX_JOBS", "4"))) as ex:
         res = dict(ex.map(one, ids))
     path = os.path.join(V, 'seeded', 'MATRIX.json')
     old = json.load(open(path)) if os.path.exists(path) else {}
